@@ -24,6 +24,7 @@ def check(ctx):
     ctx.rule("R-C18.2", "speculation is consumption-neutral: the declarator-name scan runs only between mark and reset; every reset targets a tracked mark")
     ctx.rule("R-C18.3", "parse() returns only after observing end of input")
     ctx.rule("R-C18.4", "wildcard consumption is typed: no live path consumes '#' (PPHASH) or a bracket through an untyped _advance()")
+    ctx.rule("R-C18.6", "only `#line` / `# <digits>` and `#pragma` are diverted to the directive scanners: the trigger patterns match nothing but [ \\t]*line / [ \\t]*pragma NOT followed by a word character, or [ \\t]*<digit>")
     ctx.rule("R-C18.5", "text that is no C token reaches the lexer's error callback, and the parser's callback never returns")
     ex, g = e1.get()
     px = S.module("c_parser")
@@ -151,6 +152,31 @@ def check(ctx):
         ctx.oblige("R-C18.5", what + " is an error", w is None)
         if w is not None:
             ctx.violation("R-C18.5", f"comment:{what}", f"{a.word(w)!r} is not reported as an error", file="pycparser/c_lexer.py", function="_regex_rules")
+    # the parser never catches its own error: ParseError ends the parse
+    from .. import e1 as _e1s
+    _exs, _gs = _e1s.get()
+    ctx.oblige("R-C18.5", "no handler inside the parser catches ParseError", not _exs.swallows, sample={"rule": "R-C18.5", "handlers catching ParseError / Exception inside productions": [f"{m_}:{ln_}" for m_, ln_, _ in _exs.swallows]})
+    for m_, ln_, names_ in _exs.swallows:
+        ctx.violation("R-C18.5", f"swallowed-error:{m_}", f"{m_} (line {ln_}) catches {names_}: malformed input met inside the guarded region is forgotten and the parse goes on", file="pycparser/c_parser.py", function=f"CParser.{m_}", line=ln_)
+    # ---- R-C18.6 ------------------------------------------------------------------------
+    tt = S.tables()
+    word, digit = R.category("WORD"), R.category("DIGIT")
+    anyc = R.setof(R.cs_neg(()))
+    nonword = R.setof(R.cs_neg(word))
+    blank = R.setof(R.cs_chars(" \t"))
+
+    def named(nm):
+        return R.seq(R.star(blank), R.lit(nm), R.opt(R.seq(nonword, R.star(anyc))))
+    refs = {"_pragma_pattern": named("pragma"), "_line_pattern": R.alt(named("line"), R.seq(R.star(blank), R.setof(digit), R.star(anyc)))}
+    for nm, pat in (("_pragma_pattern", tt.pragma_pattern), ("_line_pattern", tt.line_pattern)):
+        node = R.seq(R.from_pattern(pat), R.star(anyc))          # "the pattern matches some prefix of the text"
+        alpha = R.Alphabet(list(R.charsets(node)) + list(R.charsets(refs[nm])))
+        wit = R.find_in_a_not_b(R.language_dfa(alpha, node), R.language_dfa(alpha, refs[nm]))
+        ok = wit is None
+        ctx.oblige("R-C18.6", f"{nm} diverts only its own directive", ok, sample={"rule": "R-C18.6", "pattern": pat, "verdict": "matches only its directive name not followed by a word character" if ok else f"ALSO MATCHES #{alpha.word(wit)!r}"})
+        if not ok:
+            ctx.violation("R-C18.6", f"directive-trigger:{nm}", f"{nm} = {pat!r} also matches `#{alpha.word(wit)}`: a directive whose name merely begins like the intended one (or other text) is handed to the #line / #pragma scanner "
+                          "and swallowed instead of being rejected", file=S.module("c_lexer").rel, function=nm)
     from . import c04
     c04.scope_stack_never_empty(ctx, "R-C18.5")      # an unmatched '}' is reported as ParseError, it never empties the scope stack
     lx = S.module("c_lexer")
